@@ -249,9 +249,13 @@ def run_history(ops):
                 p = slots[s]
                 reqs.append(("pair", meta[s]["kind"], arr_of(np.asarray(p)), None, None, ()))
                 target = "llh" if p.system == "trs" else "trs"
+                before = np.asarray(p).tobytes()
                 r = getattr(p, target)
                 res = r
-                seen.append((arr_of(np.asarray(r)), 0 if getattr(r, "system", None) == target else 5))
+                aux = 0 if getattr(r, "system", None) == target else 5
+                if np.asarray(p).tobytes() != before:
+                    aux = 6                      # the conversion changed the values of its source
+                seen.append((arr_of(np.asarray(r)), aux))
             elif k == "Read":
                 s, qt = o[1], o[2]
                 if s not in slots or meta[s]["kind"] == 0:
@@ -264,6 +268,7 @@ def run_history(ops):
                 else:
                     reqs.append(("pair", meta[s]["kind"], arr_of(np.asarray(p)),
                                  1 if q.system == "trs" else 2, arr_of(np.asarray(q)), (qt,)))
+                before = np.asarray(p).tobytes(), (None if q is None else np.asarray(q).tobytes())
                 try:
                     r = getattr(p, QNAMES[qt])
                 except exceptions.InitializationError:
@@ -271,7 +276,8 @@ def run_history(ops):
                     seen.append((NOTHING, -2))
                     continue
                 res = r
-                seen.append((arr_of(np.asarray(r)), 0))
+                after = np.asarray(p).tobytes(), (None if q is None else np.asarray(q).tobytes())
+                seen.append((arr_of(np.asarray(r)), 0 if after == before else 6))
             elif k == "WriteRes":
                 if isinstance(res, np.ndarray) and res.ndim >= 1:
                     try:
@@ -656,6 +662,13 @@ def scenarios(thorough):
                 ("NewPos", 4, 2, A([lp])), ("NewPos", 5, 2, A([ln])), ("NewArr", 6, A([lm]))],
                [("Raw", 2, 0, 0), ("Raw", 2, 0, 1), ("Rot", 3, 0), ("Rot", 3, 1), ("Rot", 4, 6), ("Conv", 2), ("Conv", 3),
                 ("Read", 2, 5), ("Read", 3, 5), ("Read", 4, 6), ("Read", 5, 6)]))
+    # L: longitudes outside [-pi, pi] (0..2pi convention): conversions must leave the caller's values alone
+    la, lb = [0.5, 4.0, 100.0], [-0.3, -3.5, 50.0]
+    sc.append(("lon2pi",
+               [("NewArr", 0, A(la)), ("NewArr", 1, A([la, lb])), ("NewPos", 2, 2, A(la)), ("NewPos", 3, 2, A([la, lb])),
+                ("NewPos", 4, 2, A([la])), ("NewPos", 5, 1, A(V1)), ("SetOther", 2, 5)],
+               [("Raw", 2, 0, 0), ("Raw", 2, 0, 1), ("Conv", 2), ("Conv", 3), ("Conv", 4), ("Read", 2, 5), ("Read", 3, 6),
+                ("Read", 2, 1), ("Rot", 3, 0), ("SetRow", 2, W(lb))]))
     # A: augmented assignment with a position delta (the name is re-bound to p + delta; nothing memoised may survive)
     d3, d23 = A([1234.5, -2500.25, 777.0]), A([[1234.5, -2500.25, 777.0], [-10.0, 20.0, 30.5]])
     sc.append(("aug",
@@ -828,6 +841,9 @@ def _pv_make(kind, a, ref=None):
         return PosVel(mk(*a), system=PVSYS[kind])
     if kind == 5:
         return PositionDelta(mk(*a), system="trs", ref_pos=ref)
+    if kind in (7, 8):
+        from midgard.data.position import PosVelDelta
+        return PosVelDelta(mk(*a), system="enu" if kind == 7 else "acr", ref_pos=ref)
     return Position(mk(*a), system="trs")
 
 
@@ -837,6 +853,8 @@ def _pv_read(p, kind, what):
         return np.asarray(p.kepler if kind == 3 else p.trs)
     if what == 8:
         return np.asarray(p.enu)
+    if what >= 11:
+        return np.asarray(getattr(p, {11: "trs", 12: "acr", 13: "enu"}[what]))
     return np.asarray(getattr(p, PVREAD[what]))
 
 
@@ -877,9 +895,9 @@ def run_pv_history(ops):
                 seen.append((NOTHING, 0))
             elif o[0] == "PNew":
                 _, s_, kind, a, link = o
-                slots[s_] = _pv_make(kind, a, slots.get(link) if kind == 5 else None)
+                slots[s_] = _pv_make(kind, a, slots.get(link) if kind in (5, 7, 8) else None)
                 kinds[s_] = kind
-                links[s_] = link if kind == 5 else None
+                links[s_] = link if kind in (5, 7, 8) else None
                 seen.append((NOTHING, 0))
             elif o[0] == "PSet":
                 _pv_set(slots[o[1]], o[2], [w2f(w) for w in o[3]])
@@ -891,7 +909,7 @@ def run_pv_history(ops):
             elif o[0] == "PRead":
                 _, s_, what = o
                 p = slots[s_]
-                if what in (5, 6, 8):
+                if what in (5, 6, 8) or what >= 11:
                     if links[s_] is None:
                         res = None
                         try:
@@ -917,9 +935,9 @@ def run_pv_history(ops):
 
 def ref_pv(req):
     _, what, kind, a, kind2, a2 = req
-    if what == 8:
+    if what == 8 or what >= 11:
         ref = _pv_make(kind2, a2)
-        p = _pv_make(5, a, ref)
+        p = _pv_make(kind, a, ref)
     else:
         p = _pv_make(kind, a)
         if kind2 is not None:
@@ -946,6 +964,16 @@ def pv_scenarios():
         sc.append((name + "-other", prelude,
                    [("PRead", 0, 5), ("PRead", 0, 6), ("PRead", 0, 1), ("PSet", 1, 0, W6(PV_A)), ("PSet", 1, 2, W6(PV_C)),
                     ("PSet", 0, 0, W6(PV_C)), ("POther", 0, None), ("POther", 0, 1)]))
+    # PosVelDelta: two-hop conversions enu <-> acr over trs on several equal-valued objects (state shared between objects)
+    ENU = [[1.0, 2.0, 3.0, 0.1, 0.2, 0.3], [4.0, 5.0, 6.0, 0.4, 0.5, 0.6]]
+    ACR = [[-2.5, 1.5, 0.75, 0.01, -0.02, 0.03], [3.0, -1.0, 2.0, 0.05, 0.04, -0.06]]
+    REF = [[7000e3, 100e3, 200e3, 100.0, 7500.0, 300.0], [7100e3, 150e3, 210e3, 110.0, 7400.0, 310.0]]
+    for name, mkrows in (("pvd6", lambda r: A6(r[0])), ("pvd26", lambda r: A6(r))):
+        sc.append((name,
+                   [("PNew", 0, 3, mkrows(REF), None), ("PNew", 1, 7, mkrows(ENU), 0), ("PNew", 2, 7, mkrows(ENU), 0),
+                    ("PNew", 3, 8, mkrows(ACR), 0), ("PNew", 4, 8, mkrows(ACR), 0)],
+                   [("PRead", 1, 11), ("PRead", 1, 12), ("PRead", 2, 12), ("PRead", 2, 11), ("PRead", 3, 13), ("PRead", 4, 13),
+                    ("PRead", 3, 11), ("PSet", 1, 0, W6(ACR[1])), ("PSet", 0, 0, W6(REF[1]))]))
     # position deltas with a reference position that is mutated
     for name, d, r in (("delta3", A([1.0, 2.0, 3.0]), A(V0)), ("delta23", A([[1.0, 2.0, 3.0], [-4.0, 5.0, 0.5]]), A([V0, V1]))):
         sc.append((name,
@@ -1118,7 +1146,7 @@ def _run(ctx, srv):
         ctx.count(f"verdict-pv:{v}")
         rep = dict(kind="pv_history", scenario=name, ops=describe(ops),
                    observed=[[list(a[0]), [w2f(w) if a[0] and a[0][0] == 0 else w for w in a[1]], x] for a, x in seen],
-                   verdict=v, legend="kinds 3 TrsPosVel 4 KeplerPosVel 5 TrsPositionDelta 6 TrsPosition; reads 1 pos 2 vel 3 other system "
+                   verdict=v, legend="kinds 3 TrsPosVel 4 KeplerPosVel 5 TrsPositionDelta 6 TrsPosition; reads 1 pos 2 vel 3 other system 11/12/13 PosVelDelta .trs/.acr/.enu (kinds 7 enu, 8 acr) "
                                      "4 trs2acr 5 distance 6 elevation 8 delta.enu; PRaw = transformation.trs2kepler/kepler2trs(p); "
                                      "PWrite = result[...] = c; PSet mode 0 row / 1 slice / 2 whole")
         ctx.case((name, repr(ops)), nontrivial=len(body) >= 3)
